@@ -74,7 +74,9 @@ def ticket_generator(initial: int = 1) -> Generator[int, None, None]:
 async def cancel_task(task: Optional[asyncio.Task]):
     if task:
         task.cancel()
-        try:
-            await task
-        except asyncio.CancelledError:
-            pass
+        # Waiting does not raise the cancellation of the given task: a
+        # cancellation raised here is the cancellation of the task calling this
+        # function, that one should not get lost
+        await asyncio.wait([task])
+        if not task.cancelled():
+            task.result()
